@@ -1,5 +1,6 @@
 INIT Init
 NEXT Next
+CONSTANTS Strict = FALSE
 CONSTRAINT HW
 POSTCONDITION Post
 CHECK_DEADLOCK FALSE
